@@ -15,7 +15,8 @@ QUICK_RUNS = 600
 THOROUGH_SECONDS = 600
 RULE_TEXT = ("Server stack (SQLite or memory store). Program: one step that either fails its first attempt under "
              "retry_policy(wait=wait_fixed(D)) or suspends in ctx.wait_for_event(timeout=T), D,T in {2,4,8,16}, and nothing else to "
-             "do; idle_timeout drawn below/equal/above the timer; optionally a process crash + restart at a tape-chosen instant "
+             "do, optionally twice in a row (second retry / second wait) and optionally next to a sibling step whose body ends at the "
+             "instant the timer is due; idle_timeout drawn below/equal/between (1.5x)/above the timer; optionally a process crash + restart at a tape-chosen instant "
              "while the timer is pending (SQLite only). After max(D,T)+idle_timeout+slack of virtual time (simulator quiescence, "
              "gap 500 s) the retry attempt must have run / the waiting step must have received TimeoutError, and the handler must be "
              "completed. Non-trivial: the run was released or restarted while the timer was pending; distinct = (timer kind, D/T vs "
@@ -23,7 +24,7 @@ RULE_TEXT = ("Server stack (SQLite or memory store). Program: one step that eith
 COMPONENTS = {"real": ["server runtime stack, IdleReleaseDecorator release/reload, PersistenceDecorator restart, engine scheduled wake-ups"],
               "stub": ["llama_index_instrumentation"], "sim": ["loop, clocks, SQLite seam (crash), incarnations"]}
 ASSUMPTIONS = ["'really elapsed' is virtual time; quiescence gap (500 s) is far above every timer in the program"]
-EXPECTED_PROBES = ["released-with-timer-pending", "restarted-with-timer-pending", "timer-fired-in-memory"]
+EXPECTED_PROBES = ["chained-timers-idle_timeout-between", "released-with-timer-pending", "restarted-with-timer-pending", "timer-fired-in-memory"]
 LEVEL_TEXT = "Seeded exploration of timer/idle_timeout relations and restart instants; liveness judged only at simulator quiescence."
 LEVEL_NOTE = "Trusted: simulator loop/clocks, crash fence."
 
@@ -33,21 +34,31 @@ CFG = {"driver": "result", "backends": ["sqlite", "sqlite", "memory"], "quiesce_
 def gen(tape, cfg):
     kind = tape.choice(["retry", "wait"], "timer.kind")
     D = tape.choice([2, 4, 8, 16], "timer.d")
+    chain = 2 if tape.chance(45, 100, "chain?") else 1          # two timers one after the other (second retry / second wait)
     if kind == "retry":
         steps = [{"name": "s0", "accepts": ["Start0"], "workers": 1, "sync": False,
-                  "retry": {"retry": None, "wait": ("fixed", D), "stop": ("attempt", 3)}, "role": "step",
-                  "scripts": {"Start0": [("work",), ("failpath", "ValueError", 1), ("ret", "stop")]}, "returns": [], "stop": True}]
+                  "retry": {"retry": None, "wait": ("fixed", D), "stop": ("attempt", 4)}, "role": "step",
+                  "scripts": {"Start0": [("work",), ("failpath", "ValueError", chain), ("ret", "stop")]}, "returns": [], "stop": True}]
     else:
+        req = tape.chance(50, 100, "req")
+        waits = [("wait", "Resp0", req, D, f"w{i}", False, "continue") for i in range(chain)]
         steps = [{"name": "s0", "accepts": ["Start0"], "workers": 1, "sync": False, "retry": None, "role": "step",
-                  "scripts": {"Start0": [("work",), ("wait", "Resp0", tape.chance(50, 100, "req"), D, "w", False, "continue"), ("ret", "stop")]},
+                  "scripts": {"Start0": [("work",)] + waits + [("ret", "stop")]},
                   "returns": [], "stop": True}]
-    return {"steps": steps, "types": [], "timeout": None, "driver": "result", "disable_validation": False, "timer": kind, "D": D}
+    side = None
+    if tape.chance(35, 100, "side?"):
+        # a second step consuming the start event whose body ends at / next to the instant the first timer is due
+        side = tape.choice([D, D, D + 1, D - 1], "side.sleep")
+        steps.append({"name": "side", "accepts": ["Start0"], "workers": 1, "sync": False, "retry": None, "role": "step",
+                      "scripts": {"Start0": [("sleep", side), ("ret", None)]}, "returns": [], "stop": False})
+    return {"steps": steps, "types": [], "timeout": None, "driver": "result", "disable_validation": False, "timer": kind, "D": D,
+            "chain": chain, "side": side}
 
 
 async def scenario(world, spec):
     D = spec["D"]
-    rel = world.tape.choice(["below", "equal", "above", "far-above"], "idle.rel")
-    world.cfg["idle_timeout"] = float({"below": D / 2, "equal": D, "above": D * 2, "far-above": 400}[rel])
+    rel = world.tape.choice(["below", "equal", "between", "between", "above", "far-above"], "idle.rel")
+    world.cfg["idle_timeout"] = float({"below": D / 2, "equal": D, "between": D * 1.5, "above": D * 2, "far-above": 400}[rel])
     restart = world.backend == "sqlite" and world.tape.chance(40, 100, "restart?")
     inc = world.new_incarnation()
     wf = inc.add_workflow("wf", spec)
@@ -78,33 +89,70 @@ async def scenario(world, spec):
 def check(world, spec, outcome) -> None:
     recs = world.trace.recs
     kind = spec["timer"]
-    retried = any(k == "enter" and f["step"] == "s0" and f["retry"] >= 1 for _, _, k, f in recs)
-    timed_out = any(k == "wait-timeout" for _, _, k, f in recs)
-    fail_t = next((t for _, t, k, f in recs if k == "exit" and str(f["exit"]).startswith("raised")), None)
-    susp_t = next((t for _, t, k, f in recs if k == "exit" and f["exit"] == "suspended"), None)
+    n = spec["chain"]
+    it = world.cfg["idle_timeout"]
+    max_retry = max([f["retry"] for _, _, k, f in recs if k == "enter" and f["step"] == "s0"] or [0])
+    n_timeouts = sum(1 for _, _, k, f in recs if k == "wait-timeout")
+    fail_t = next((t for _, t, k, f in recs if k == "exit" and f["step"] == "s0" and str(f["exit"]).startswith("raised")), None)
+    susp_t = next((t for _, t, k, f in recs if k == "exit" and f["step"] == "s0" and f["exit"] == "suspended"), None)
     released = [t for _, t, k, f in recs if k == "runner-exit"]
+    idle_ann = [t for _, t, k, f in recs if k == "publish" and f["ev"] == "WorkflowIdleEvent"]
     via = outcome["via"]
     t_timer = (fail_t if kind == "retry" else susp_t)
     if t_timer is None:
         world._nt = False
         return
-    deadline = t_timer + spec["D"]
-    rel_before = any(t_timer <= t <= deadline for t in released)
-    if via == "none" and rel_before:
+    # per timer of the chain: when did it start, when was it due, did its action happen, and was the control loop that owned it
+    # still alive at the due instant?  A timer that is lost although nothing released or killed its loop before it was due is
+    # not one of the recorded defects (those lose timers that are pending AT a release / restart).
+    seq_done = next((q for q, t, k, f in recs if k == "publish" and f["ev"] in ("StopEvent", "WorkflowFailedEvent")), None)
+    exits = [(q, t) for q, t, k, f in recs if k in ("runner-exit", "crash") and (seq_done is None or q < seq_done)]
+    if kind == "retry":
+        starts = [t for _, t, k, f in recs if k == "exit" and f["step"] == "s0" and str(f["exit"]).startswith("raised")][:n]
+        acts = sorted(t for _, t, k, f in recs if k == "enter" and f["step"] == "s0" and f["retry"] >= 1)
+    else:
+        starts = [t for _, t, k, f in recs if k == "exit" and f["step"] == "s0" and f["exit"] == "suspended"][:n]
+        acts = sorted(t for _, t, k, f in recs if k == "wait-timeout")
+    lost_in_memory = False
+    rel_in = []
+    for i, ts in enumerate(starts):
+        due = ts + spec["D"]
+        ex = [t for _, t in exits if ts <= t <= due + 1e-9]
+        if ex:
+            rel_in.append(ex[0])
+        if i >= len(acts) and not ex:
+            lost_in_memory = True
+            world.probe("timer-due-while-loop-alive-but-lost")
+    if not rel_in and len(acts) >= len(starts):
+        # every timer fired; a release after that (while the re-executed body runs) belongs to the early-release family
+        rel_in = [t for _, t in exits if t >= t_timer]
+    if lost_in_memory and via == "none":
+        via = "in-memory"
+    if via == "none" and rel_in:
         via = "idle-release"
         world.probe("released-with-timer-pending")
     if via == "none":
         world.probe("timer-fired-in-memory")
+    if n == 2 and spec["D"] < it < 2 * spec["D"]:
+        world.probe("chained-timers-idle_timeout-between")
+    # root cause attribute: was the run released although the idle period it was released for had NOT lasted idle_timeout?
+    # (the recorded defects release a run whose idleness has lasted idle_timeout while a timer is pending; a release before
+    # that is a different failure)
+    premature = False
+    if via == "idle-release":
+        t_rel = rel_in[0]
+        last_idle = max([t for t in idle_ann if t <= t_rel] or [None], key=lambda x: -1 if x is None else x)
+        premature = last_idle is not None and (t_rel - last_idle) < it - 1e-9
     final = outcome.get("final")
-    cause = {"via": via, "timer": kind}
-    if kind == "retry" and not retried:
-        world.violate("C14.retry-lost", f"step failed at t={fail_t} with wait_fixed({spec['D']}); the retry never ran by t={world.clock.t} "
-                      f"(idle_timeout={world.cfg['idle_timeout']}, {via})", **cause)
-    if kind == "wait" and not timed_out:
-        world.violate("C14.timeout-lost", f"step suspended at t={susp_t} with timeout={spec['D']}; no TimeoutError by t={world.clock.t} "
-                      f"(idle_timeout={world.cfg['idle_timeout']}, {via})", **cause)
+    cause = {"via": via, "timer": kind, "premature_release": premature}
+    if kind == "retry" and max_retry < n:
+        world.violate("C14.retry-lost", f"step failed at t={fail_t} with wait_fixed({spec['D']}) x{n}; only {max_retry} of {n} retries ran by t={world.clock.t} "
+                      f"(idle_timeout={it}, {via})", **cause)
+    if kind == "wait" and n_timeouts < n:
+        world.violate("C14.timeout-lost", f"step suspended at t={susp_t} with timeout={spec['D']} x{n}; {n_timeouts} of {n} TimeoutErrors by t={world.clock.t} "
+                      f"(idle_timeout={it}, {via})", **cause)
     if final is None or final[0] == "running":
-        world.violate("C14.running-forever", f"handler is {final} at quiescence (t={world.clock.t}); timer {kind} D={spec['D']}, {via}", **cause)
+        world.violate("C14.running-forever", f"handler is {final} at quiescence (t={world.clock.t}); timer {kind} D={spec['D']} x{n}, {via}", **cause)
     world._nt = via != "none"
 
 
